@@ -1,4 +1,5 @@
 import BoolFn.Proofs.BddQuant
+import BoolFn.Proofs.BddOps
 import BoolFn.Proofs.QuantET
 /-! # C06 — Existential and universal quantification eliminate variables one at a time
 
@@ -115,6 +116,62 @@ theorem bdd_forall (vs : List α) (hnd : vs.Nodup) (b : Bdd α) (hb : b.WF) :
       ∀ ρ, (b'.den ρ = true ↔ ∀ σ : α → Bool, (∀ y, y ∉ vs → σ y = ρ y) → b.den σ = true) := by
   obtain ⟨b', h1, h2, h3, h4⟩ := Bdd.forallQ_den vs hnd b hb
   refine ⟨b', h1, h2, by intro y; rw [h3]; simp, fun ρ => by rw [h4, nested_and_iff]⟩
+
+theorem filter_not_contains_perm {vs vs' : List α} (hp : vs.Perm vs') (l : List α) :
+    l.filter (fun x => !(vs.contains x)) = l.filter (fun x => !(vs'.contains x)) := by
+  apply List.filter_congr
+  intro x _
+  simp only [List.contains_eq_mem, hp.mem_iff]
+
+/-- **in any order**: eliminating the same variables in a different order gives the *same diagram*
+    (not merely an equivalent one) -/
+theorem order_independent_bdd (vs vs' : List α) (hp : vs.Perm vs') (hnd : vs.Nodup) (b : Bdd α) (hb : b.WF)
+    (c c' : Bdd α) :
+    (Bdd.existsQ vs b = .ok c → Bdd.existsQ vs' b = .ok c' → c = c') ∧
+    (Bdd.forallQ vs b = .ok c → Bdd.forallQ vs' b = .ok c' → c = c') := by
+  constructor
+  · intro h1 h2
+    obtain ⟨d, hd, hdw, hdi, hdd⟩ := Bdd.existsQ_den vs hnd b hb
+    obtain ⟨d', hd', hdw', hdi', hdd'⟩ := Bdd.existsQ_den vs' (hp.nodup hnd) b hb
+    rw [h1] at hd; cases hd
+    rw [h2] at hd'; cases hd'
+    apply Bdd.eq_of_den _ _ hdw hdw' (by rw [hdi, hdi', filter_not_contains_perm hp])
+    intro ρ
+    rw [hdd, hdd']
+    exact nested_perm _ _ medial_or hp hnd b ρ
+  · intro h1 h2
+    obtain ⟨d, hd, hdw, hdi, hdd⟩ := Bdd.forallQ_den vs hnd b hb
+    obtain ⟨d', hd', hdw', hdi', hdd'⟩ := Bdd.forallQ_den vs' (hp.nodup hnd) b hb
+    rw [h1] at hd; cases hd
+    rw [h2] at hd'; cases hd'
+    apply Bdd.eq_of_den _ _ hdw hdw' (by rw [hdi, hdi', filter_not_contains_perm hp])
+    intro ρ
+    rw [hdd, hdd']
+    exact nested_perm _ _ medial_and hp hnd b ρ
+
+/-- quantifying nothing, or only variables the diagram does not declare, returns the diagram itself -/
+theorem bdd_foreign_or_empty (vs : List α) (hnd : vs.Nodup) (b : Bdd α) (hb : b.WF)
+    (hf : ∀ x ∈ vs, x ∉ b.inputs) (c : Bdd α) (h : Bdd.existsQ vs b = .ok c ∨ Bdd.forallQ vs b = .ok c) : c = b := by
+  have hfil : b.inputs.filter (fun x => !(vs.contains x)) = b.inputs := by
+    rw [List.filter_eq_self]
+    intro x hx
+    simp only [List.contains_eq_mem, Bool.not_eq_true', decide_eq_false_iff_not]
+    exact fun hxv => hf x hxv hx
+  have hcongr : ∀ (bop : Bool → Bool → Bool) (hid : ∀ a, bop a a = a) ρ, nested bop Bdd.den vs b ρ = b.den ρ := by
+    intro bop hid
+    apply nested_foreign bop hid
+    intro x hx ρ v
+    apply Bdd.den_congr
+    intro y hy
+    have : x ≠ y := fun e => hf x hx (e ▸ hy)
+    simp [upd, this]
+  rcases h with h | h
+  · obtain ⟨d, hd, hdw, hdi, hdd⟩ := Bdd.existsQ_den vs hnd b hb
+    rw [h] at hd; cases hd
+    exact Bdd.eq_of_den _ _ hdw hb (by rw [hdi, hfil]) (fun ρ => by rw [hdd, hcongr (· || ·) (by intro a; cases a <;> rfl)])
+  · obtain ⟨d, hd, hdw, hdi, hdd⟩ := Bdd.forallQ_den vs hnd b hb
+    rw [h] at hd; cases hd
+    exact Bdd.eq_of_den _ _ hdw hb (by rw [hdi, hfil]) (fun ρ => by rw [hdd, hcongr (· && ·) (by intro a; cases a <;> rfl)])
 end
 
 /-- the pre-repair definition `F[all=0] ∘ F[all=1]`, written out, is wrong for two variables:
